@@ -119,17 +119,21 @@ def tiny_direct_games():
     return out
 
 
-def through_run_games(ctx, games):
+def through_run_games(ctx, games, coarse=False):
     """run_games()[name]['msg'] (observe_at): an unsolvable game must not affect its neighbours"""
     from crlib import repo, quiet, time_limit
     cr = repo("conditionalrewards")
     d = {f"g{i}": gen.desc(g) for i, g in enumerate(games)}
     solo = [impl.solve(g, True, want_nodes=False)["outcome"] for g in games]
     try:
-        with quiet(), time_limit(60.0):
-            res = cr.run_games(d)
+        with quiet(), time_limit(60.0), impl.maybe_debug():
+            if coarse:
+                with impl.coarse_clock():
+                    res = cr.run_games(d)
+            else:
+                res = cr.run_games(d)
     except BaseException as e:  # noqa
-        ctx.violation("batch-terminates", {"games": list(d.values())}, {"error": type(e).__name__})
+        ctx.violation("batch-terminates", {"games": list(d.values())}, {"error": type(e).__name__, "msg": str(e)[:200]})
         return
     for i, g in enumerate(games):
         m = res[f"g{i}"]["msg"]
@@ -143,8 +147,29 @@ def through_run_games(ctx, games):
     ctx.count("through_run_games")
 
 
+def huge_integer_rewards(ctx):
+    """rewards are documented as non-negative integers and Python integers are unbounded: on games whose
+    probabilities are the integer 1 the solver's arithmetic is exact integer arithmetic"""
+    for big in (10 ** 400, 2 ** 1024, 10 ** 30):
+        for g in ({"rewards": [big, 0, 3, 0], "players": [P1, PR, P2, PR],
+                   "transition_list": [[("a", 1), ("b", 2)], [(1, 3)], [("x", 3)], [(1, 3)]], "final_states": [3]},
+                  {"rewards": [1, big, 0], "players": [PR, P2, PR],
+                   "transition_list": [[(1, 1)], [("a", 2)], [(1, 2)]], "final_states": [2]}):
+            for prune in (True, False):
+                ctx.case({"game": g, "prune": prune, "family": "huge_integer_rewards"}, True)
+                o = impl.solve(g, prune, want_nodes=False)
+                if o["outcome"] != "ok":
+                    ctx.violation("no-other-error", {"game": g, "prune": prune}, {"outcome": o["outcome"], "msg": o.get("msg")})
+                    return
+                want0 = big + 3 if g["rewards"][0] == big else 1 + big
+                if o["res"][2][0] != want0:
+                    ctx.violation("complete-result", {"game": g, "prune": prune}, {"rewards": [str(x) for x in o["res"][2]], "expected_state0": str(want0)})
+                    return
+
+
 def run(ctx, model=None):
     ctx.extra["rule"] = RULE
+    huge_integer_rewards(ctx)
     rng = random.Random(ctx.seed * 3010349 + 6)
     specials = tiny_direct_games()
     for g in specials:
@@ -154,7 +179,7 @@ def run(ctx, model=None):
         g = gen.stopping_game(rng, n_inner=rng.randint(2, 5), dead_frac=0.5)
         pool.append(g)
     for k in range(4 if ctx.quick() else 40):
-        through_run_games(ctx, rng.sample(pool, rng.randint(2, 5)))
+        through_run_games(ctx, rng.sample(pool, rng.randint(2, 5)), coarse=(k % 2 == 1))
     for kind in (PR, P1):
         for pat in gen.all_patterns(4 if ctx.quick() else 6):
             for sl in (False, True):
